@@ -136,6 +136,18 @@ func hasStringer(t types.Type) bool {
 	return false
 }
 
+func hasFormatter(t types.Type) bool {
+	for _, tt := range []types.Type{t, types.NewPointer(t)} {
+		ms := types.NewMethodSet(tt)
+		for i := 0; i < ms.Len(); i++ {
+			if ms.At(i).Obj().Name() == "Format" {
+				return true
+			}
+		}
+	}
+	return false
+}
+
 // itoa term for an integer value in the current mode.
 func (w *World) itoa(t Term) string {
 	if w.BV {
@@ -187,8 +199,8 @@ func (ft *funcTrans) sprintfTerm(com *ssa.CallCommon) string {
 			return ""
 		}
 		v := vals[sg.arg]
-		if hasStringer(v.Type()) {
-			return ""
+		if hasStringer(v.Type()) && !(sg.verb == 'd' && !hasFormatter(v.Type())) {
+			return "" // %d ignores String/Error methods; only a Formatter changes it
 		}
 		t := ft.termOf(v)
 		switch {
@@ -204,6 +216,10 @@ func (ft *funcTrans) sprintfTerm(com *ssa.CallCommon) string {
 				s = fmt.Sprintf("(fmt_pad0 %s %d)", s, sg.width)
 			}
 			parts = append(parts, s)
+		case sg.verb == 'f' && t.Sort.Kind == KReal && sg.width == 0:
+			// %f: six digits after the point; the text is an uninterpreted function of the value
+			w.declFunIfMissing("ftoa6", []string{"Real"}, "String")
+			parts = append(parts, fmt.Sprintf("(ftoa6 %s)", t.S))
 		case (sg.verb == 't' || sg.verb == 'v') && t.Sort.Kind == KBool:
 			parts = append(parts, fmt.Sprintf("(ite %s \"true\" \"false\")", t.S))
 		default:
